@@ -17,6 +17,9 @@ from vsim.tape import Tape
 
 def enter(env: dict):
     """Make this process the simulated process described by env; returns the SimCtx."""
+    if env.get("stack_dump"):
+        from vsim import procs
+        procs.arm_stack_dump()
     os.chdir(env["cwd"])
     os.environ["HOME"] = env["home"]
     os.environ["TMPDIR"] = env["tmp"]
